@@ -71,6 +71,28 @@ def handle (s : Sexp) : D String :=
       match Stop.ofString? (← decStr istop) with
       | some st => pure (toString (specCalls (← decInt imin) (← decOptInt imax) st rs))
       | none => pure "ERR istop"
+  | .list [.atom "rep", kind, t] => do
+      let t ← decTTerm t
+      let r := match kind with
+        | .atom "tel" => createFormula t
+        | .atom "del" => createDynamicFormula t
+        | _ => .error (.runtime "bad kind")
+      match r with
+      | .ok f => pure ("ok " ++ f.rep)
+      | .error e => pure ("ERR " ++ e.tag)
+  | .list (.atom "eqns" :: h :: atoms) => do
+      -- each atom: (kind step (elems...)) ; roots are the element conjunctions at their steps
+      let h ← decNat h
+      let roots ← atoms.mapM fun a => match a with
+        | .list [kind, step, .list els] => do
+            let els ← els.mapM decTElem
+            let dyn := match kind with | .atom "del" => true | _ => false
+            match translateElements els dyn with
+            | .ok f => pure (some (f, ← decNat step))
+            | .error _ => pure none
+        | s => dfail "theory atom" s
+      if roots.any Option.isNone then pure "ERR create" else
+      pure (showEqns h (roots.filterMap id))
   | s => .error s!"unknown command: {s.toStr}"
 
 partial def loop (inp : IO.FS.Stream) (out : IO.FS.Stream) : IO Unit := do
